@@ -119,6 +119,48 @@ def directed_relay(cfg, res):
             res.case(repr((nd, retries, batch, victim, tail)), nontrivial=s.was_paused)
 
 
+def directed_quality_reset(cfg, res):
+  """Directed family: USE_RATIO_RESET.  The queue fills while the destination is connecting (receivers pause), a statistics
+  tick records that nothing was sent, the connection comes up and is reset for its quality by the very send that starts to
+  drain the queue; the close takes effect at once or a few events later (the factory keeps sending through the protocol
+  it closed); then every tail of <= 2 events and quiescence."""
+  from vlib import relayharness as rh
+  import checks.c07_queues as c7
+  from carbon.conf import settings
+
+  class NS(object):
+    pass
+  ns = NS()
+  ns.settings = settings
+  tails = [()] + [(e,) for e in ('arrive', 'adv_defer', 'adv_next', 'conn_made', 'stats')]
+  tails += [(a, b) for a in ('adv_defer', 'adv_next', 'conn_made') for b in ('adv_defer', 'conn_made', 'arrive')]
+  for protocol in ('pickle', 'line'):
+    for batch in (1, 3, 500):
+      for interval in (0, 121):
+        for pre in (0, 1, 3):
+          for tail in tails:
+            v = dict(batch=batch, dyn=False, retries=5, protocol=protocol, ratio=True, reset_interval=interval)
+            ns.transport_hw = c7.apply_variant(settings, v, 'constant', 1)
+            s = rh.Seq(ns, c7.DESTS[:1], receivers=2)
+            evs = [('fill', 0), ('stats', 0)]
+            if interval:
+              evs = [('conn_made', 0), ('conn_lost', 0)] + evs      # an earlier connection: its last reset is long ago
+            evs += [('conn_made', 0)] + [('adv_defer', 0)] * pre + [(e, 0) for e in tail]
+            for ev, i in evs:
+              s.apply(ev, i)
+              if ev == 'stats' and interval:
+                s.fake.advance(200)
+            res.count('directed_quality_reset_sequences')
+            res.count('quality_resets_in_directed_sequences', s.counters.get('quality_resets_observed', 0))
+            res.count('closes_taking_effect_later', s.counters.get('closes_taking_effect_later', 0))
+            relay_oracle(s, dict(v, nd=1, directed=True), cfg, res)
+            for sig, msg in s.violations[:2]:
+              if sig.startswith('relay/'):
+                res.violation(sig + '/quality-reset', '%s [maxq=%d low=%s %r] events=%r' % (msg, cfg['maxq'], cfg['low'], v, s.log),
+                              dict(cfg=cfg, variant=v, events=s.log))
+            res.case(repr(('qr', protocol, batch, interval, pre, tail)), nontrivial=s.was_paused)
+
+
 def run_cache(cfg, res):
   from vlib import boot, cachesim, sched as S
   conf = {'CACHE_WRITE_STRATEGY': cfg['strategy'], 'MAX_CACHE_SIZE': cfg['max'], 'USE_FLOW_CONTROL': True, 'MAX_UPDATES_PER_SECOND': 'inf'}
@@ -242,6 +284,8 @@ def run_config(cfg, res):
   finally:
     c7.PROPERTY = old
   directed_relay(cfg, res)
+  if cfg['fc']:
+    directed_quality_reset(cfg, res)
   # C07's own oracle also ran; its findings are C07's, not C09's: keep only relay/* signatures
   res.violations = [v for v in res.violations if v['sig'].startswith('relay/')]
 
